@@ -19,8 +19,12 @@ LawWriteRead == WriteReadBack(st)
 LawSeek == SeekContract(st)
 LawReverse == ReverseNoop(st)
 
+\* adapters: every source sequence of at most MaxLen + 1 entries over words and NONE
+LawIterSticky == (st.kind = "vec" /\ st.buf = <<>>) => \A s \in WordSeqs(2, MaxLen + 1) : IterSticky(IterSt(s, FALSE))
+EmitAdapters == (st.kind = "vec" /\ st.buf = <<>>) => PrintT(<<"CASE", ToJson(
+    [k |-> "adapters", sources |-> { [src |-> s, reads |-> IterReads(IterSt(s, FALSE), Len(s) + 2)] : s \in WordSeqs(2, MaxLen + 1) }])>>)
 Res(r) == [res |-> r.res, buf |-> r.st.buf, pos |-> r.st.pos]
-Emit == PrintT(<<"CASE", ToJson(
+Emit == EmitAdapters /\ PrintT(<<"CASE", ToJson(
     [k |-> "backend", kind |-> st.kind, buf |-> st.buf, pos |-> st.pos,
      rs |-> Res(ReadStack(st)),
      rq |-> IF HasQueue(st) THEN <<Res(ReadQueue(st))>> ELSE <<>>,
